@@ -1163,6 +1163,114 @@ impl PoolCase {
         vec![line]
     }
 
+    /// `pool resv`: a ring and a pool (2 buffers) of their own. Both buffers are handed out (the
+    /// kernel's head and the tail are 2: the next ring slot is slot 0, whose `resv` field IS the
+    /// tail word), then one `ReadBuf` is released on a scheduled thread that is parked between
+    /// writing its ring entry and storing the tail. Nothing is published at that moment: a kernel
+    /// that selects buffers now (it only compares tail and head for inequality — probed on the real
+    /// kernel, `a10h kc`) must find the ring empty. Observed: the buffer ids it is handed.
+    fn do_resv(&mut self) -> Vec<String> {
+        if self.ps * self.bs > (8 << 20) {
+            return vec!["bad-op".into()];
+        }
+        self.feats.push("release-parked-before-tail-store".into());
+        simk::purge_closed_except(self.rfd);
+        let held_main = simk::hold_fd(self.rfd);
+        let before: Vec<i32> = simk::with_sim(|s| s.rings.keys().copied().collect());
+        let built_b = Ring::config().with_submission_queue_size(8).build();
+        if held_main {
+            simk::release_fd(self.rfd);
+        }
+        let mut ring_b = match built_b {
+            Ok(r) => r,
+            Err(e) => return vec![format!("resv setup-failed {e}")],
+        };
+        let sq_b = ring_b.sq();
+        let rfd_b = simk::with_sim(|s| s.rings.keys().copied().find(|k| !before.contains(k)).unwrap());
+        let raw_b = simk::with_ring(rfd_b, |r, _| r.fresh_fd());
+        let fd_b = unsafe { AsyncFd::from_raw_fd(raw_b, sq_b.clone()) };
+        let pool_b = match ReadBufPool::new(sq_b.clone(), 2, 8) {
+            Ok(p) => p,
+            Err(e) => return vec![format!("resv pool-failed {e}")],
+        };
+        let bgid_b = simk::with_ring(rfd_b, |r, _| r.pbufs.keys().next().copied()).unwrap_or(0);
+        let waker = util::waker(996);
+        let mut cx = Context::from_waker(&waker);
+        let mut read = |ring_b: &mut Ring, buf: ReadBuf| -> Result<ReadBuf, String> {
+            use std::future::Future;
+            let mut fut = Box::pin(fd_b.read(buf));
+            let first = util::catch(|| fut.as_mut().poll(&mut cx));
+            let _ = ring_b.poll(Some(Duration::ZERO));
+            let ud = simk::with_ring(rfd_b, |r, _| r.inflight.iter().find(|x| x.sqe.opcode == simk::OP_READ).map(|x| x.sqe.user_data));
+            if let Some(ud) = ud {
+                let mut spec = PostSpec::new(Target::UserData(ud), 3, 0);
+                spec.data = Some(vec![7, 8, 9]);
+                spec.select_buf = true;
+                simk::with_ring(rfd_b, |r, ev| r.post(&spec, ev));
+            }
+            let _ = ring_b.poll(Some(Duration::ZERO));
+            let second = match first {
+                Ok(Poll::Pending) => util::catch(|| fut.as_mut().poll(&mut cx)),
+                other => other,
+            };
+            match second {
+                Err(_) => Err("panic".into()),
+                Ok(Poll::Pending) => Err("pending".into()),
+                Ok(Poll::Ready(Err(e))) => Err(util::errno_name(e.raw_os_error().unwrap_or(0))),
+                Ok(Poll::Ready(Ok(b))) => Ok(b),
+            }
+        };
+        let line = match (read(&mut ring_b, pool_b.get()), read(&mut ring_b, pool_b.get())) {
+            (Ok(a), Ok(b)) => {
+                // release `a` on a scheduled thread, parked right before its tail store
+                crate::sched::install();
+                let tid = crate::sched::spawn(move || {
+                    drop(a);
+                    String::new()
+                });
+                let mut parked = false;
+                for _ in 0..64 {
+                    match crate::sched::status(tid) {
+                        Some(crate::sched::Status::Parked(kind, _)) if kind == crate::sched::STORE_BUF_TAIL => {
+                            parked = true;
+                            break;
+                        }
+                        Some(crate::sched::Status::Done(_)) => break,
+                        _ => {
+                            crate::sched::step(tid);
+                        }
+                    }
+                }
+                let mut selected: Vec<u16> = Vec::new();
+                if parked {
+                    simk::with_ring(rfd_b, |r, _| {
+                        for _ in 0..2 {
+                            if let Some((bid, _, _)) = r.select_buffer(bgid_b) {
+                                selected.push(bid);
+                            }
+                        }
+                    });
+                }
+                let _ = crate::sched::finish_all();
+                crate::sched::uninstall();
+                if !selected.is_empty() {
+                    self.fail("tail-overlay", format!("a ReadBuf was being released (ring entry written, tail not yet stored — the thread can be preempted there): the kernel found the tail word changed and was handed buffer(s) {selected:?} although nothing was published; the other ReadBuf (still alive) and the one being released own them"));
+                }
+                drop(b);
+                format!("resv parked={} selected={}", u8::from(parked), if selected.is_empty() { "-".to_string() } else { selected.iter().map(|b| b.to_string()).collect::<Vec<_>>().join(",") })
+            }
+            (a, b) => format!("resv reads-failed {:?} {:?}", a.err(), b.err()),
+        };
+        drop(pool_b);
+        std::mem::forget(fd_b);
+        unsafe { libc::close(raw_b) };
+        drop(sq_b);
+        drop(ring_b);
+        let _ = util::drain_wakes();
+        let _ = simk::drain_events();
+        vec![line]
+    }
+
     fn do_end(&mut self) -> Vec<String> {
         for i in 0..self.ops.len() {
             if self.ops[i].fut.is_some() {
@@ -1322,6 +1430,7 @@ impl Case for PoolCase {
             if rng.chance(1, 12) { 2 } else { 0 },                                         // 13 malformed
             if self.ps * self.bs <= (8 << 20) && rng.chance(1, 10) { 2 } else { 0 },         // 14 xring
             if self.ps * self.bs <= (8 << 20) && rng.chance(1, 12) { 2 } else { 0 },         // 15 lone
+            if self.ps * self.bs <= (8 << 20) && rng.chance(1, 12) { 2 } else { 0 },         // 16 resv
         ];
         Some(match rng.weighted(&w) {
             0 => "pool get".into(),
@@ -1380,6 +1489,7 @@ impl Case for PoolCase {
             12 => "pool ring".into(),
             14 => "pool xring".into(),
             15 => "pool lone".into(),
+            16 => "pool resv".into(),
             _ => {
                 // malformed stream
                 let i = rng.below(self.ops.len() as u64 + 2);
@@ -1498,6 +1608,7 @@ impl Case for PoolCase {
             },
             ["pool", "xring"] => self.do_xring(),
             ["pool", "lone"] => self.do_lone(),
+            ["pool", "resv"] => self.do_resv(),
             ["pool", "ring"] => vec![self.show_ring()],
             ["pool", "end"] => self.do_end(),
             _ => vec!["bad-op".into()],
